@@ -12,7 +12,19 @@ CWORDS = ["section", "global", "SECTION .text", "GLOBAL _start", "section.data",
 
 
 def gen_comment(rnd):
-    return rnd.choice([";", " ;", "\t;", " ; ", ";;"]) + " ".join(rnd.choice(CWORDS) for _ in range(rnd.randrange(1, 5)))
+    body = " ".join(rnd.choice(CWORDS) for _ in range(rnd.randrange(1, 5)))
+    if rnd.random() < 0.35:
+        # a comment is free text: any byte except the line terminators and NUL (UTF-8 punctuation, Latin-1, control characters ...)
+        k = rnd.randrange(3)
+        if k == 0:
+            extra = rnd.choice(["\u2014 em dash", "\u201cquoted\u201d", "caf\u00e9 \u2192 \u20ac", "\u00c0\u00ca\u00cd", "\u4e2d\u6587", "\u2026"]).encode("utf-8").decode("latin-1")
+        elif k == 1:
+            extra = "".join(chr(rnd.choice([b for b in range(0x80, 0x100)])) for _ in range(rnd.randrange(1, 6)))
+        else:
+            extra = "".join(chr(rnd.choice([b for b in range(1, 0x20) if b not in (10, 13)] + [0x7f])) for _ in range(rnd.randrange(1, 4)))
+        pos = rnd.randrange(len(body) + 1)
+        body = body[:pos] + extra + body[pos:]
+    return rnd.choice([";", " ;", "\t;", " ; ", ";;"]) + body
 
 
 def rw_case(t, rnd):
